@@ -191,3 +191,39 @@ func scalePhase(p *seqProp) *seqProp {
 	d.Rule = "SCALE: a 40-member object, arrays of 600 numbers and of 260 objects, a 14-level document; all sequences <= 2 over a hand-picked alphabet (first / middle / last / beyond positions, indices around 255|256 and 511|512 and their negatives, 20-digit tokens, an 80-byte value); same oracle"
 	return &d
 }
+
+// scaleObjects: the 40-member object and close relatives (one member changed, removed, added, a
+// nested member changed, a null made non-null; 16- / 17- / 33-member prefixes) for the pairwise merge checks.
+func scaleObjects() []*rj.Value {
+	base := rj.MustParse(wide40())
+	out := []*rj.Value{base}
+	mod := func(f func(v *rj.Value)) {
+		c := rj.Clone(base)
+		f(c)
+		out = append(out, c)
+	}
+	mod(func(v *rj.Value) { v.O[7].V = rj.MustParse(`7.5`) })
+	mod(func(v *rj.Value) { v.O = append(v.O[:20:20], v.O[21:]...) })
+	mod(func(v *rj.Value) { v.O = append(v.O, rj.Member{Name: "k40", V: rj.MustParse(`{"n":1}`)}) })
+	mod(func(v *rj.Value) { v.O[11].V.O[0].V = rj.MustParse(`"changed"`) })
+	mod(func(v *rj.Value) { v.O[5].V = rj.MustParse(`0`) })
+	mod(func(v *rj.Value) { v.O[39].V = rj.MustParse(`[1]`) })
+	for _, n := range []int{16, 17, 33} {
+		c := rj.Clone(base)
+		c.O = c.O[:n]
+		out = append(out, c)
+	}
+	for i := range out {
+		// CreateMergePatch needs a target without null members for the round trip: keep both kinds
+		c := rj.Clone(out[i])
+		var kept []rj.Member
+		for _, m := range c.O {
+			if m.V.K != rj.Null {
+				kept = append(kept, m)
+			}
+		}
+		c.O = kept
+		out = append(out, c)
+	}
+	return dedupe(out)
+}
